@@ -1,7 +1,8 @@
 (* Model of ForwardedStreamSource::convert_response (http_forwarded_stream.rs): which of the origin's response fields are
    handed on to the client. A field is (name, value), the name compared in lower case as the code does.
-   [two_pass] = FWD_HOP_BY_HOP_WHEREVER_THEY_STAND: the fields named by Connection, and Content-Length / Transfer-Encoding of a
-   response whose chunked framing is removed (HTTP/2 and HTTP/3 clients), are collected before the fields are handed on;
+   [two_pass] = FWD_HOP_BY_HOP_WHEREVER_THEY_STAND: the fields named by Connection, the Content-Length of a response that
+   carries Transfer-Encoding, and that Transfer-Encoding when the chunked framing is removed (HTTP/2 and HTTP/3 clients), are
+   collected before the fields are handed on;
    as found they were collected while handing on, so a field standing before the one that names it got through.
    Modelling limits: str::trim and str::to_lowercase are modelled on ASCII (a Connection token with a non-ASCII letter whose
    lower case is ASCII, such as the Kelvin sign, is not followed). *)
@@ -57,10 +58,11 @@ Definition conv_step (st : list (list N) * list field) (h : field) : list (list 
   else if s_eqb name n_connection then ((if two_pass then [] else connection_tokens (snd h)) ++ drop, out)
   else if s_eqb name n_te && dechunked then ((if two_pass then [] else [n_cl; n_te]) ++ drop, out)
   else (drop, out ++ [h]).
+(* (as found, before the names were collected ahead, a Transfer-Encoding handed on to an HTTP/1.1 client left Content-Length alone) *)
 
 Definition prescan (hs : list field) : list (list N) :=
   flat_map (fun h => if s_eqb (lower_s (fst h)) n_connection then connection_tokens (snd h) else []) hs
-  ++ (if dechunked && existsb (fun h => s_eqb (lower_s (fst h)) n_te) hs then [n_cl; n_te] else []).
+  ++ (if existsb (fun h => s_eqb (lower_s (fst h)) n_te) hs then n_cl :: (if dechunked then [n_te] else []) else []).
 
 Definition convert (hs : list field) : list field :=
   snd (fold_left conv_step hs ((if two_pass then prescan hs else []) ++ always_dropped, [])).
@@ -74,7 +76,7 @@ Definition hop_by_hop (dechunked : bool) (hs : list field) (name : list N) : boo
   s_eqb n n_connection
   || mem n always_dropped
   || mem n (flat_map (fun h => if s_eqb (lower_s (fst h)) n_connection then connection_tokens (snd h) else []) hs)
-  || (dechunked && existsb (fun h => s_eqb (lower_s (fst h)) n_te) hs && (s_eqb n n_cl || s_eqb n n_te)).
+  || (existsb (fun h => s_eqb (lower_s (fst h)) n_te) hs && (s_eqb n n_cl || (dechunked && s_eqb n n_te))).
 
 Definition end_to_end (dechunked : bool) (hs : list field) : list field :=
   filter (fun h => negb (hop_by_hop dechunked hs (fst h))) hs.
